@@ -194,6 +194,23 @@ func (e *Exec) eval(x ast.Expr, c *Ctx) Term {
 
 func (e *Exec) specType(x ast.Expr, c *Ctx) *Type {
 	s := exprText(x)
+	// a type parameter of the function under verification
+	for f := c.fr; f != nil; f = f.parent {
+		if f.fi == nil {
+			continue
+		}
+		sig := f.fi.Obj.Type().(*types.Signature)
+		for _, tps := range []*types.TypeParamList{sig.RecvTypeParams(), sig.TypeParams()} {
+			if tps == nil {
+				continue
+			}
+			for i := 0; i < tps.Len(); i++ {
+				if tps.At(i).Obj().Name() == s {
+					return e.prog.TypeOf(tps.At(i), f.subst)
+				}
+			}
+		}
+	}
 	t, err := e.prog.parseGhostType(s, c.fr.pkg)
 	if err != nil {
 		e.errorf("spec type %s: %v", s, err)
@@ -272,7 +289,12 @@ func (e *Exec) objValue(obj types.Object, c *Ctx) Term {
 	case *types.Nil:
 		return Term{"0", tNil}
 	case *types.Func:
-		return Term{e.vc.FreshConst("funcval", "Int"), &Type{K: KFunc, G: o.Type()}}
+		// a declared function used as a value: one non-nil constant per function
+		n := "funcval!" + mangle(shortName(o.FullName()))
+		if !e.vc.declared["fun:"+n] {
+			e.vc.Decl("fun:"+n, fmt.Sprintf("(declare-fun %s () Int)\n(assert (> %s 0))", n, n))
+		}
+		return Term{n, &Type{K: KFunc, G: o.Type()}}
 	}
 	e.errorf("%s: unsupported object %v", e.curPos, obj)
 	return Term{e.vc.FreshConst("unk", "Int"), tOpaque}
@@ -324,7 +346,12 @@ func (e *Exec) readField(base Term, f fieldInfo, c *Ctx, n ast.Node) Term {
 			e.guardedBy(c, base, f.Name, n)
 		}
 		h := e.heapArr(c.st, base.T.Name, f)
-		return Term{fmt.Sprintf("(select %s %s)", h.S, base.S), f.Type}
+		r := Term{fmt.Sprintf("(select %s %s)", h.S, base.S), f.Type}
+		if !c.spec && (f.Type.K == KRef || f.Type.K == KMap) && len(e.guards) == 0 {
+			// heap closure: a stored reference is nil or an allocated object of its kind
+			e.refInv(c.st, r, 0)
+		}
+		return r
 	case KStruct:
 		return Term{fmt.Sprintf("(%s!%s %s)", e.Sort(base.T), f.Name, base.S), f.Type}
 	}
